@@ -335,13 +335,20 @@ class Ev:
             raise self.bad(n, "nested comprehension")
         g = n.generators[0]
         out = []
-        saved = dict(self.env)
-        for item in self.iterate(self.ev(g.iter)):
-            self.assign(g.target, item)
-            if all(self.ev(i) for i in g.ifs):
-                out.append(self.ev(n.elt))
-        self.env.clear()
-        self.env.update(saved)
+        # the comprehension's own names (targets, walrus targets) are scoped to it: put back what they hid
+        own = {x.id for x in ast.walk(g.target) if isinstance(x, ast.Name)}
+        saved = {k: self.env.get(k, _MISSING) for k in own}
+        try:
+            for item in self.iterate(self.ev(g.iter)):
+                self.assign(g.target, item)
+                if all(self.ev(i) for i in g.ifs):
+                    out.append(self.ev(n.elt))
+        finally:
+            for k, v in saved.items():
+                if v is _MISSING:
+                    self.env.pop(k, None)
+                else:
+                    self.env[k] = v
         return set(out) if isinstance(n, ast.SetComp) else out
 
     def call(self, n: ast.Call) -> Any:  # noqa: PLR0911, PLR0912
@@ -747,7 +754,7 @@ class Ev:
             return True
         raise self.bad(p, "pattern")
 
-    def closure(self, fn: ast.FunctionDef, base_env: dict | None = None) -> Callable:
+    def closure(self, fn: ast.FunctionDef, base_env: dict | None = None, extra: dict | None = None) -> Callable:
         params = [a.arg for a in fn.args.args]
         kwonly = [a.arg for a in fn.args.kwonlyargs]
         defaults = fn.args.defaults
@@ -777,6 +784,8 @@ class Ev:
                 fn._sa_locals = fnlocals  # type: ignore[attr-defined]
             # a name assigned in the function is local to it: an enclosing binding is not visible
             inherited = dict(outer)
+            if extra:
+                inherited.update(extra)
             for k in fnlocals:
                 inherited.pop(k, None)
             inherited.update(local)
